@@ -332,7 +332,9 @@ fn model_tokens(text: &str, trailing_endline: bool, directives: bool) -> String 
     r.unwrap_or_else(|_| "X".into())
 }
 
-/// does a known divergence in a skipped group explain this error variant?
+/// does a divergence class in a skipped group explain this error variant?  (`lexer-error` and
+/// `junk-after-else-endif` are known findings; `non-identifier-directive` is repaired (fix ed75afa) and is kept
+/// only so that a return of the defect is reported under its old key)
 fn explained_by_hint(hints: &std::collections::BTreeSet<&'static str>, v: &str) -> Option<&'static str> {
     if v == "LexerError" && hints.contains("unlexable-in-skipped") {
         Some("skipped-group lexer-error")
@@ -364,7 +366,10 @@ fn judge_raw(rr: &raw::RefResult, obs: &Observed, flat: &[String]) -> String {
         },
         (raw::Expected::Reject(kind, _), Observed::Ok(_)) => format!("FAIL:{} accepted", kind),
         (raw::Expected::Reject(kind, want), Observed::Err(v)) => {
-            if want.is_empty() || want == v || explained_by_hint(&rr.hints, v).is_some() {
+            // a still-known divergence in a skipped group may pre-empt the required variant; the repaired class
+            // (non-identifier directives, fix ed75afa) excuses nothing any more
+            let excused = matches!(explained_by_hint(&rr.hints, v), Some(c) if c != "skipped-group non-identifier-directive");
+            if want.is_empty() || want == v || excused {
                 "ok".into()
             } else {
                 format!("FAIL:{} reported as {}", kind, v)
